@@ -305,6 +305,22 @@ def h_stack(ctx, values, twin=None):
     if isinstance(back, list) and len(back) == len(vals):
         for i, (g, v) in enumerate(zip(back, vals)):
             ctx.require(equal_value(g, v), f'parsed {v.kind} equals the original, in order')
+        # the parsed values belong to the caller: after the caller has changed them (tuples grown, the list emptied) a second
+        # parse of the same cell still returns the original values, and the first result is not touched by it
+        def tuples(x):
+            if isinstance(x, VmTuple):
+                yield x
+                for y in list(x.list):
+                    yield from tuples(y)
+        for g in back:
+            for t in tuples(g):
+                t.list.append(12345)
+        back.clear()
+        again = VmStack.deserialize(cell.begin_parse())
+        ctx.require(isinstance(again, list) and len(again) == len(vals), 'parsing again returns as many values')
+        if isinstance(again, list) and len(again) == len(vals):
+            for g, v in zip(again, vals):
+                ctx.require(equal_value(g, v), f'parsed again after the caller changed the first result: {v.kind} equals the original')
     ctx.observe('depth', len(vals))
 
 
